@@ -924,7 +924,12 @@ def run(ctx, explain=False):
         words = srng.sample(words, ctx.pick(3000, 40000))
     words += ["C(C(C)C)C", "C1CC1C1CC1", "C%12CC%12", "c1ccccc1", "C12C3C4C1C5C4C3C25", "CC(=O)O", "ClC(Br)(I)F", "C(C(C(C(C)C)C)C)C", "N#CC#N"]
     words += [random_smiles(srng, srng.randint(3, 30)) for _ in range(ctx.pick(1500, 20000))]
-    straces = pool_map(drive_smiles, sorted(set(words)), procs=1 if ctx.quick else None)
+    # strings no SMILES grammar reads (TLC decides which they are): a character dropped from, or a token dropped into, a good one
+    good = sorted(set(words))
+    for w in srng.sample(good, min(len(good), ctx.pick(600, 8000))):
+        k = srng.randrange(len(w))
+        words.append(w[:k] + w[k + 1:] if srng.random() < 0.5 else w[:k] + srng.choice(["(", ")", "=", ".", "1", "C"]) + w[k:])
+    straces = pool_map(drive_smiles, sorted(set(x for x in words if x)), procs=1 if ctx.quick else None)
     ctx.validate("trace/Trace_Smiles.tla", straces, consts="  AsBuilt = FALSE", name="Trace_Smiles (extension)", extension=True, timeout=1800)
     # beyond the listed property: cube files and the CubeData object (CubeFile.tla; the specification writes the file, then a
     # history of origin shifts is stepped through on the real object)
